@@ -96,7 +96,11 @@ def check_design(sub, item):
                 sub.violation(f'layout:{key}', f'{label}: {problems[0]}; the formula has a model decoding to {seq} which '
                               f'violates {bad[:4]}', data)
                 return 'layout'
-        raise HarnessError(f'{label}: cannot link variables: {problems}')
+        # the layout differs from the documented one (that is C14's subject) but no invalid sequence could be shown:
+        # this design cannot be decided here
+        sub.case(key, nontrivial=False)
+        sub.note_inconclusive(f'{label}: cannot link variables to cells: {problems}')
+        return 'unlinked'
     if sem.status != 'ok':
         import z3
         R = [('empty', z3.BoolVal(False))]
